@@ -101,15 +101,18 @@ class StampedConnection(rig.FakeConnection):
         rig.FakeConnection.sendall(self, data)
 
 
-def client_requests(rng, ci, ident, version, shared, hist):
+def client_requests(rng, ci, ident, version, shared, hist, hot=False):
     reqs = []
-    n = rng.randrange(3, 8)
+    n = rng.randrange(3, 8) if not hot else rng.randrange(5, 10)
     tag = 'h%d-c%d' % (hist, ci)
     for j in range(n):
         k = rng.randrange(17)
         if rng.random() < 0.2:
             k = 2           # placeholder batches are the requests with the most transient state: make them frequent
-        sh = rng.choice(shared)
+        if hot:
+            # every client keeps coming back to one object: reads of it between the other clients' changes to it
+            k = rng.choice((3, 4, 4, 4, 16, 7, 8, 5, 6, 10, 12, rng.randrange(17)))
+        sh = rng.choice(shared) if not hot else shared[0]
         name = '%s-%d' % (tag, j)
         if k == 0:
             ops = [op_create(names=[name], policy='open' if version < (2, 0) else None)]
@@ -216,9 +219,12 @@ def run_case(ctx, case):
         srv0.close()
         nclients = rng.choice((2, 2, 3, 3, 4))
         clients = rng.sample(CLIENTS, nclients)
+        hot = rng.random() < 0.4
+        if hot:
+            ctx.count('hot_object_histories')
         frames = []
         for ci, (ident, version) in enumerate(clients):
-            frames.append(client_requests(rng, ci, ident, version, shared, case['hist']))
+            frames.append(client_requests(rng, ci, ident, version, shared, case['hist'], hot))
         if sum(len(f) for f in frames) < 2:
             return
         refused_client = None
@@ -344,12 +350,23 @@ def run_case(ctx, case):
         real_get = slugs_mod.requests.get
         if slugs_mode:
             slugs_mod.requests.get = fake_get
+        # when the collector runs is part of the schedule: in two thirds of the histories it does not run at all while the
+        # clients are active (as in a server whose long-lived objects sit in the oldest generation), so that whatever a
+        # session thread keeps reachable only through reference cycles stays around between its requests
+        import gc
+        gc_off = rng.random() < 0.67
+        if gc_off:
+            gc.disable()
+            ctx.count('histories_without_garbage_collection')
         try:
             for t in threads:
                 t.start()
             for t in threads:
                 t.join(60)
         finally:
+            if gc_off:
+                gc.enable()
+                gc.collect()
             slugs_mod.requests.get = real_get
             sys.setswitchinterval(old_si)
             mon.set_events(tool, 0)
@@ -435,9 +452,14 @@ def run_case(ctx, case):
         ctx.count('session_level_requests', len(session_level))
         # Wing-Gong search by replay ---------------------------------------------------
         heads = [0] * nclients
-        budget = [400]
+        budget = [1500]
         found = []
         clock_now = clock.now
+        dead = set()        # (requests done per client, digest of the store) from which no completion exists
+        import hashlib
+
+        def digest(path):
+            return hashlib.sha1(repr(sorted(rig.raw_dump(path).items())).encode()).hexdigest()
 
         def search(order, path, depth):
             if budget[0] <= 0:
@@ -454,6 +476,9 @@ def run_case(ctx, case):
             pending = [(ci, heads_[ci]) for ci, heads_ in ((c, hl) for c, hl in enumerate([order_heads(order, nclients)] * nclients))
                        ] if False else None
             hd = order_heads(order, nclients)
+            state_key = (tuple(hd), digest(path))
+            if state_key in dead:
+                return False
             cands = [(ci, hd[ci]) for ci in range(nclients) if hd[ci] < len(frames[ci])]
             # real-time precedence: an operation may go next only if no other pending operation returned before it was called
             min_ret = min(ops[c]['ret'] for c in cands)
@@ -493,6 +518,8 @@ def run_case(ctx, case):
                     pass
                 if budget[0] <= 0:
                     return None
+            if result is False:
+                dead.add(state_key)
             return result
         res = search([], base, 0)
         ccls = '%d-clients' % nclients
